@@ -1,12 +1,17 @@
 #!/bin/sh
-# try_seed.sh <property> <patch.diff> : apply a seeded change to /repo, run the check, undo it.
+# try_seed.sh <property> <patch.diff> [tier] : run a check against a MUTATED COPY of /repo without touching /repo:
+#   /tmp/mutrepo  = scratch worktree of /repo HEAD with the patch applied
+#   /tmp/mutverif = copy of /verif whose harness, table generator and check point at /tmp/mutrepo
 set -u
-P=$1; PATCH=$2
-cd /repo || exit 2
-if ! git diff --quiet; then echo "/repo is dirty"; exit 2; fi
+P=$1; PATCH=$2; TIER=${3:-quick}
+[ -d /tmp/mutrepo ] || git -C /repo worktree add -q --detach /tmp/mutrepo HEAD
+cd /tmp/mutrepo && git checkout -q --detach $(git -C /repo rev-parse HEAD) && git checkout -- . && git clean -fdq
 git apply "$PATCH" || { echo "patch does not apply"; exit 2; }
-cd /verif && ./check "$P" --tier "${3:-quick}" | cut -c1-300 | grep -v "^TIE-BROKEN" | head -8
-rc=$?
-git -C /repo checkout -- . 
-git -C /repo clean -fdq tests/ 2>/dev/null
-exit $rc
+mkdir -p /tmp/mutverif
+rsync -a --delete --exclude .git --exclude harness/target --exclude lean/.lake --exclude work --exclude replays --exclude evidence /verif/ /tmp/mutverif/
+[ -d /tmp/mutverif/lean/.lake ] || cp -r /verif/lean/.lake /tmp/mutverif/lean/.lake
+cd /tmp/mutverif
+sed -i 's#path = "/repo"#path = "/tmp/mutrepo"#' harness/Cargo.toml
+sed -i 's#^REPO = "/repo"#REPO = "/tmp/mutrepo"#' tools/gen/common.py check
+mkdir -p evidence work
+./check "$P" --tier "$TIER" | cut -c1-300 | grep -v "^TIE-BROKEN" | head -8
